@@ -274,7 +274,16 @@ def resolve_unwindset(goto_binary, spec):
     """spec: list of (function substring, ordinal or None, bound). The ordinal counts the loops of that
     function in *source-line order* (0 = first loop in the text); CBMC's own numbering is not source order.
     Loop identifiers are resolved on every run from `cbmc --show-loops` (they carry mangled names)."""
-    out = subprocess.run(["cbmc", "--show-loops", goto_binary], capture_output=True, text=True).stdout.splitlines()
+    # kani-driver merges multiple back edges per loop (goto-instrument --ensure-one-backedge-per-target) before it
+    # calls cbmc, which renumbers the loops of a function; resolve identifiers on a copy treated the same way
+    merged = goto_binary + ".loops.tmp"
+    gi = subprocess.run(["goto-instrument", "--ensure-one-backedge-per-target", goto_binary, merged], capture_output=True, text=True)
+    src = merged if gi.returncode == 0 and os.path.exists(merged) else goto_binary
+    out = subprocess.run(["cbmc", "--show-loops", src], capture_output=True, text=True).stdout.splitlines()
+    try:
+        os.remove(merged)
+    except OSError:
+        pass
     loops = []
     for i, ln in enumerate(out):
         m = _LOOP_RE.match(ln)
@@ -284,7 +293,9 @@ def resolve_unwindset(goto_binary, spec):
             loops.append((m.group(1), fm.group(1) if fm else "", int(lm.group(1)) if lm else 0))
     chosen = {}
     unmatched = []
-    for fsub, ordinal, bound in spec:
+    for entry in spec:
+        fsub, ordinal, bound = entry[0], entry[1], entry[2]
+        with_line0 = entry[3] if len(entry) > 3 else True
         cands = sorted([l for l in loops if fsub in l[1]], key=lambda l: (l[1], l[2], l[0]))
         # ordinal within each distinct function name
         by_fn = {}
@@ -302,7 +313,7 @@ def resolve_unwindset(goto_binary, spec):
                 if ordinal is None or ordinal == k or (ordinal < 0 and ordinal == k - len(lines)):
                     chosen[l[0]] = max(bound, chosen.get(l[0], 0))
                     hit = True
-            if hit:
+            if hit and with_line0:
                 # back edges without a source line (`continue` inside one of the loops): CBMC does not say
                 # which loop they belong to, so they get the bound as well
                 for l in ls:
@@ -312,6 +323,6 @@ def resolve_unwindset(goto_binary, spec):
             unmatched.append((fsub, ordinal))
     if os.environ.get("VERIF_DEBUG_LOOPS"):
         for l in loops:
-            if any(f in l[1] for f, _, _ in spec):
+            if any(e[0] in l[1] for e in spec):
                 log("[loops] %s line %d -> %s  (%s)" % (l[1][-60:], l[2], chosen.get(l[0]), l[0][-30:]))
     return chosen, unmatched, len(loops)
